@@ -47,30 +47,40 @@ func (r *Rand) Fork() *Rand                 { return NewRand(r.U64()) }
 
 // ---------- Coq literals ----------
 
-// CoqBytes renders a byte string as a Gallina term of type `bytes`; long constant runs are
-// rendered structurally so a 65536-byte script is a few tokens.
+// CoqBytes renders a byte string as a Gallina term of type `bytes`; runs of 48 or more equal
+// bytes are rendered as `repeat_byte n xNN` so long constant stretches (big scripts, hundreds of
+// identical opcodes) are a few tokens.
 func CoqBytes(b []byte) string {
-	if len(b) > 300 {
-		same := true
-		for _, x := range b {
-			if x != b[0] {
-				same = false
-				break
-			}
-		}
-		if same {
-			return fmt.Sprintf("(blit_bytes (BRep %d \"%02x\"))", len(b), b[0])
-		}
-		// prefix + constant tail
-		i := len(b) - 1
-		for i > 0 && b[i-1] == b[len(b)-1] {
-			i--
-		}
-		if len(b)-i > 300 {
-			return fmt.Sprintf("(blit_bytes (BCat (BHex \"%s\") (BRep %d \"%02x\")))", hex.EncodeToString(b[:i]), len(b)-i, b[len(b)-1])
+	var segs []string
+	lit := 0
+	flushLit := func(end int) {
+		if end > lit {
+			segs = append(segs, byteList(b[lit:end]))
 		}
 	}
-	return byteList(b)
+	for i := 0; i < len(b); {
+		j := i
+		for j < len(b) && b[j] == b[i] {
+			j++
+		}
+		if j-i >= 48 {
+			flushLit(i)
+			segs = append(segs, fmt.Sprintf("repeat_byte (N.to_nat %d%%N) x%02x", j-i, b[i]))
+			lit = j
+		}
+		i = j
+	}
+	flushLit(len(b))
+	switch len(segs) {
+	case 0:
+		return "[]"
+	case 1:
+		if strings.HasPrefix(segs[0], "repeat_byte") {
+			return "(" + segs[0] + ")"
+		}
+		return segs[0]
+	}
+	return "(" + strings.Join(segs, " ++ ") + ")"
 }
 
 // byteList: explicit constructor list — Coq ingests it about four times faster than a hex string.
